@@ -5,10 +5,13 @@ from __future__ import annotations
 from typing import TYPE_CHECKING, ClassVar, Generic, TypeVar, cast
 from warnings import warn
 
+import numpy as np
+
 from quansino.mc.canonical import Canonical
 from quansino.mc.contexts import DeformationContext
 from quansino.mc.criteria import CanonicalCriteria, IsobaricCriteria
 from quansino.moves.cell import CellMove
+from quansino.moves.composite import CompositeMove
 from quansino.moves.displacement import DisplacementMove
 
 if TYPE_CHECKING:
@@ -131,6 +134,28 @@ class Isobaric(Canonical[MoveType, CriteriaType], Generic[MoveType, CriteriaType
         self.context.last_cell = self.atoms.get_cell()
 
         super().validate_simulation()
+
+    def save_state(self) -> None:
+        """Save the current state of the context and tell every move about an accepted
+        change of the cell."""
+        if np.any(self.atoms.cell.array != np.asarray(self.context.last_cell)):
+            notified: set[int] = set()
+            pending = [move_storage.move for move_storage in self.moves.values()]
+
+            while pending:
+                move = pending.pop(0)
+
+                if id(move) in notified:
+                    continue
+
+                notified.add(id(move))
+
+                if isinstance(move, CompositeMove):
+                    pending.extend(move.moves)
+                else:
+                    move.on_cell_changed(self.atoms.get_cell())
+
+        super().save_state()
 
     def revert_state(self) -> None:
         """
